@@ -42,21 +42,19 @@ def run(R):
     # result-directed: (k, u) chosen so that the shared secret itself is a boundary value of the field representation (a small integer
     # >= 19, a low limb nearly full, just below p): u = u([k^-1 mod L] Q) for a prime-order Q with u(Q) = the target
     nt = 0
-    want = 60 if thorough else 14
+    per = 8 if thorough else 2
     fams = {}
-    for v in cc.x25519_result_targets(R.rng, want):
-        fam = "small" if v < 100 else ("below-p" if v > cc.P - 100 else "limb")
-        if fams.get(fam, 0) >= (want + 2) // 3:
-            continue
-        k = rb("rk%d" % nt)
-        u = cc.x25519_preimage(v, k)
-        if u is None:
-            continue
-        fams[fam] = fams.get(fam, 0) + 1
-        evs.append(({"op": "curve25519" if nt % 2 else "x25519_dh", "n": k, "p": cc.le32(u)}, ("result", fam, nt)))
-        nt += 1
-        if nt >= want:
-            break
+    for fam, cands in cc.x25519_result_targets(R.rng):
+        for v in cands:
+            if fams.get(fam, 0) >= per + (2 if fam == "low51" else 0):
+                break
+            k = rb("rk%d" % nt)
+            u = cc.x25519_preimage(v, k)
+            if u is None:
+                continue
+            fams[fam] = fams.get(fam, 0) + 1
+            evs.append(({"op": "curve25519" if nt % 2 else "x25519_dh", "n": k, "p": cc.le32(u)}, ("result", fam, nt)))
+            nt += 1
     R.extra["result_directed_x25519"] = fams
     # every conversion of the byte wrappers and PublicKey's derived comparisons (equal, first byte decides, last byte decides)
     ca = rb("cv")
